@@ -40,7 +40,7 @@ fn write_if_changed(p: &Path, content: &str) {
 
 pub struct BinSpec {
     pub stem: String,        // p<hash>
-    pub idl_text: String,    // written to idl/<stem>.varlink (generator ran fine in-process)
+    pub idls: Vec<(String, String)>, // (stem, text) written to idl/<stem>.varlink (generator ran fine in-process); one per generated interface
     pub source: String,      // src/bin/<stem>.rs
 }
 /// one cell of the option matrix: `generate_with_options(text, GeneratorOptions { preamble, .. }, tosource)` run inside the
@@ -115,7 +115,9 @@ pub fn write_package(bins: &[BinSpec], derives: &[DeriveSpec], opts: &[OptSpec])
          let files: Vec<&str> = vec![\n",
     );
     for x in bins {
-        b.push_str(&format!("        \"idl/{}.varlink\",\n", x.stem));
+        for (st, _) in &x.idls {
+            b.push_str(&format!("        \"idl/{}.varlink\",\n", st));
+        }
     }
     b.push_str(
         "    ];\n    let exe = std::env::current_exe().unwrap();\n    \
@@ -158,7 +160,7 @@ pub fn write_package(bins: &[BinSpec], derives: &[DeriveSpec], opts: &[OptSpec])
     write_if_changed(&root.join("build.rs"), &b);
     // sources of earlier batches
     let keep: std::collections::HashSet<String> =
-        bins.iter().map(|b| b.stem.clone()).chain(derives.iter().map(|d| d.stem.clone())).chain(opts.iter().map(|o| o.stem.clone())).chain(std::iter::once("fe_build".to_string())).collect();
+        bins.iter().map(|b| b.stem.clone()).chain(bins.iter().flat_map(|b| b.idls.iter().map(|x| x.0.clone()))).chain(derives.iter().map(|d| d.stem.clone())).chain(opts.iter().map(|o| o.stem.clone())).chain(std::iter::once("fe_build".to_string())).collect();
     for sub in ["src/bin", "idl", "cmds", "src/opt"] {
         if let Ok(rd) = std::fs::read_dir(root.join(sub)) {
             for e in rd.flatten() {
@@ -170,7 +172,9 @@ pub fn write_package(bins: &[BinSpec], derives: &[DeriveSpec], opts: &[OptSpec])
         }
     }
     for x in bins {
-        write_if_changed(&root.join(format!("idl/{}.varlink", x.stem)), &x.idl_text);
+        for (st, text) in &x.idls {
+            write_if_changed(&root.join(format!("idl/{}.varlink", st)), text);
+        }
         write_if_changed(&root.join(format!("src/bin/{}.rs", x.stem)), &x.source);
     }
     for o in opts {
@@ -286,7 +290,7 @@ pub fn cargo_build(stems: &[String]) -> Result<BTreeMap<String, BinResult>, Stri
             for e in rd.flatten() {
                 let name = e.file_name().to_string_lossy().to_string();
                 let base = name.split(|c| c == '-' || c == '.').next().unwrap_or("").to_string();
-                let ours = base.len() == 17 && (base.starts_with('p') || base.starts_with('d') || base.starts_with('o')) && base[1..].chars().all(|c| c.is_ascii_hexdigit());
+                let ours = base.len() == 17 && (base.starts_with('p') || base.starts_with('d') || base.starts_with('o') || base.starts_with('s')) && base[1..].chars().all(|c| c.is_ascii_hexdigit());
                 if ours && !stems.contains(&base) {
                     let _ = std::fs::remove_file(e.path());
                 }
@@ -297,7 +301,7 @@ pub fn cargo_build(stems: &[String]) -> Result<BTreeMap<String, BinResult>, Stri
         for e in rd.flatten() {
             let name = e.file_name().to_string_lossy().to_string();
             let base = name.split('-').next().unwrap_or("").to_string();
-            let ours = base.len() == 17 && (base.starts_with('p') || base.starts_with('d') || base.starts_with('o')) && base[1..].chars().all(|c| c.is_ascii_hexdigit());
+            let ours = base.len() == 17 && (base.starts_with('p') || base.starts_with('d') || base.starts_with('o') || base.starts_with('s')) && base[1..].chars().all(|c| c.is_ascii_hexdigit());
             if ours {
                 let _ = std::fs::remove_dir_all(e.path());
             }
